@@ -4,5 +4,6 @@ CONSTANTS
   MaxSess = 5
   MaxRpc = 3
   InLock = TRUE
+  MaxWedged = 0
 INVARIANTS TypeOK Sync CanMakeCallsConsistent ServedByLive UnavailOnlyIfEmpty Resumable NoStaleReady
 CHECK_DEADLOCK FALSE
